@@ -1,5 +1,6 @@
 import TeosVerif.Driver.TxIndexDrv
 import TeosVerif.Driver.TowerDrv
+import TeosVerif.Driver.SlotsDrv
 /- The model driver: one operation per input line, one canonical output line per operation. -/
 open Teos Teos.Drv
 
@@ -11,6 +12,7 @@ def step (st : DState) (line : String) : DState × String :=
   match words line with
   | "case" :: rest => ({}, "case " ++ joinWith " " rest)
   | "ti" :: rest => let (t, o) := tiStep st.ti rest; ({ st with ti := t }, o)
+  | "sl" :: rest => (st, slStep rest)
   | "tw" :: rest => let (t, o) := twStep st.tw rest; ({ st with tw := t }, o)
   | _ => (st, "bad-op")
 
